@@ -83,12 +83,30 @@ Proof. exact value_spec_double. Qed.
 Print Assumptions C07_yaml_agree_dquoted_escapes.
 
 Theorem C07_yaml_agree_literal_folded : forall vsp folded h lead indent first more trail,
-  wf_value (VBlock vsp folded h lead indent first more) = true ->
+  wf_value (VBlock vsp folded h lead indent first more) = true -> bl_le indent trail = true ->
   OptAgree.value_spec (VBlock vsp folded h lead indent first more) trail.
 Proof. exact value_spec_block. Qed.
 Print Assumptions C07_yaml_agree_literal_folded.
 
-(* ---- Round 2: marks, clone, has_comments ---- *)
+(* ---- Round 2 ---- *)
+
+(* C07_yaml_agree above now also covers (Opt/YamlSpec.v, round 2): blank lines that contain spaces
+   (before, between and after items, inside multi-line plain scalars, inside and after block
+   scalars up to the indentation), comment lines with leading indentation, backslash + line break
+   inside double quotes (DBrk), and a last line without its final line break (b_final_nl = false).
+   For that last form, stated on its own: *)
+Theorem C07_final_newline_optional : forall lead items,
+  wf_block (BK lead items true) = true -> last_item_ok items = true ->
+  options_to_items (print_block (BK lead items false)) =
+  options_to_items (print_block (BK lead items true)).
+Proof. exact final_newline_optional. Qed.
+Print Assumptions C07_final_newline_optional.
+
+Theorem C07_final_newline_text : forall lead items, last_item_ok items = true ->
+  print_block (BK lead items true) = print_block (BK lead items false) ++ [10].
+Proof. exact print_block_nolf. Qed.
+Print Assumptions C07_final_newline_text.
+
 
 (* StreamBuffer bookkeeping: after forwarding k characters get_position() is (k, line of k,
    column of k) where the line is the number of recognised line breaks before k (LF, NEL, LS, PS,
@@ -141,14 +159,18 @@ Print Assumptions C07_nul_truncates.
       c
 *)
 Definition ex_block : block :=
-  BK 0 [ IComment [32; 99] 0;
-         IKV (KPlain (PL [107; 49] [])) 1 (VFlow 1 (FPlain (PL [118] [(1%nat, [119])]) []) 3 (Some [32; 116])) 1;
-         IKV (KSingle [113; 39; 107]) 0
-             (VFlow 1 (FDouble [DChr 97; DEsc 116; DChr 98; DHex 120 [52; 49]] [([32], 0%nat, [32; 32], [DChr 99])]) 0 None) 0;
-         IKV (KPlain (PL [108; 105; 116] [])) 0
-             (VBlock 1 false (HD Keep true true 0 None) 0 2 [32; 32; 120] [(0%nat, [121])]) 1;
-         IKV (KPlain (PL [102; 111] [])) 0
-             (VBlock 1 true (HD Strip false false 0 None) 0 1 [97] [(0%nat, [98]); (1%nat, [32; 99])]) 0 ].
+  BK [1%nat]
+     [ IComment 2 [32; 99] [];
+       IKV (KPlain (PL [107; 49] [])) 1 (VFlow 1 (FPlain (PL [118] [(1%nat, [119])]) []) 3 (Some [32; 116])) [2%nat];
+       IKV (KSingle [113; 39; 107]) 0
+           (VFlow 1 (FDouble [DChr 97; DEsc 116; DChr 98; DHex 120 [52; 49]; DBrk 0 [32]; DChr 33]
+                             [([32], 0%nat, [32; 32], [DChr 99])]) 0 None) [];
+       IKV (KPlain (PL [108; 105; 116] [])) 0
+           (VBlock 1 false (HD Keep true true 0 None) [] 2 [32; 32; 120] [([], [121])]) [0%nat];
+       IKV (KPlain (PL [102; 111] [])) 0
+           (VBlock 1 true (HD Strip false false 0 None) [1%nat] 1 [97] [([], [98]); ([1%nat], [32; 99])]) [];
+       IKV (KDouble [DChr 122]) 1 (VFlow 2 (FSingle [118] []) 1 (Some [33])) [] ]
+     false.
 
 Example C07_example_wf : wf_block ex_block = true.
 Proof. vm_compute. reflexivity. Qed.
@@ -156,9 +178,10 @@ Proof. vm_compute. reflexivity. Qed.
 Example C07_example_result :
   options_to_items (print_block ex_block) =
   Ok [ ([107; 49], [118; 32; 119]);
-       ([113; 39; 107], [97; 9; 98; 65; 32; 99]);
+       ([113; 39; 107], [97; 9; 98; 65; 33; 32; 99]);
        ([108; 105; 116], [32; 32; 120; 10; 121; 10; 10]);
-       ([102; 111], [97; 32; 98; 10; 10; 32; 99]) ].
+       ([102; 111], [10; 97; 32; 98; 10; 10; 32; 99]);
+       ([122], [118]) ].
 Proof. vm_compute. reflexivity. Qed.
 
 (* an embedded NUL is the end of the input for the tokenizer *)
